@@ -36,7 +36,7 @@ SCRATCH = os.environ.get('VERIF_SCRATCH', '/dev/shm')
 DESTS = ('stdout', 'ofile', 'inplace')
 OPTS = [(e, f, d) for e in (0, 1) for f in (0, 1) for d in DESTS]
 STD = ('~', '*', ':')
-FOREIGN_Q = [('!', '|', '>'), ('\n', '|', '>')]
+FOREIGN_Q = [('!', '|', '>'), ('\n', '|', '>'), ('\x1c', '\x1d', '\x1e')]        # incl. the FS/GS/RS control characters (str methods count them as whitespace)
 FOREIGN_T = [('!', '|', '>'), ('\n', '|', '>'), ('\x1c', '\x1d', '\x1e'), ('+', '&', '\\')]
 LAYOUTS = ('orig', 'none', 'lf', 'crlf', 'fill')      # fill: blank-filled fixed-length records (three blanks after every terminator, no line break)
 
